@@ -120,6 +120,20 @@ CLAIMED = {
         "Trusted: Coq kernel, translator (FSM constants), harness (virtual-time loop = CPython's own _run_once with a clock-advancing selector, in-memory transport). Modelled not verified: asyncio semantics as assumed by the mini loop; threading.Lock, GC timing of never-retrieved task exceptions, the 0418 null-reply special case, the impersonation alert of PortProtocol.send_cmd. Liveness is only 'a wake-up is armed / a wake-up answers' -- that due timers run is the event loop's job.",
         "6 (C07-C09)",
     ),
+    "C17": (
+        "Coq proof (record pack/unpack by lia; day grouping and reassembly by induction over arbitrary schedules / fragment sequences; zlib as a universally quantified function with its round-trip law as hypothesis; setpoint scaling by exhaustive PrimFloat computation) + component-wise correspondence + end-to-end oracle with real zlib",
+        "7 theorems in coq/props/C17.v about coq/model/M_Sched.v (= _struct_pack/_struct_unpack, full_sched_to_fragz/fragz_to_full_sched, "
+        "82-char chunking, Schedule._update_payload_set/_proc_payload_set): decode(encode s) = s for EVERY valid weekly schedule (any "
+        "number of switchpoints), every fragment <= 82 hex chars, reassembly from the true fragments in ANY order with ANY repeats gives "
+        "s or nothing, setpoint centi-degree scaling exact on all 65 536 words. Tie: _struct_pack/_struct_unpack, the decoder's day "
+        "grouping on arbitrary record lists (through real zlib), the pre-compression blob of whole schedules, fragment chunking and the "
+        "reassembly bookkeeping (zlib replaced by the identity on both sides) are compared with the model. Oracle: real round trips, "
+        "fragment sizes, every write command decoded by the library's decoder, reassembly in random order with repeats.",
+        "Trusted: Coq kernel, harness. zlib itself is not modelled (hypothesis of the theorems, real zlib in the oracle). The voluptuous "
+        "validator is read as 'seven days 0-6, >= 1 switchpoint, 5-minute times, setpoint 5..35 on the 0.01 grid / bool' (valid_sched); "
+        "the 'no schedule' reply and the shared EMPTY_PAYLOAD_SET list are not modelled.",
+        "6 (C17)",
+    ),
 }
 
 NOT_YET = "not claimed yet: the Coq model and correspondence harness for this property are not built in this revision (planned in DESIGN.md section 6)"
